@@ -49,8 +49,10 @@ def resolve_target(path):
 # ------------------------------------------------------------------------------------------
 #  spec evaluation helpers (added to Ctx)
 # ------------------------------------------------------------------------------------------
-def call_spec(ctx, fn, ns):
-    """Call a spec function picking its parameters by name from the namespace ns."""
+def call_spec(ctx, fn, ns, strict=True):
+    """Call a spec function picking its parameters by name from the namespace ns.  strict: an
+    exception raised by the SPEC (hint, invariant, requires ...) is a defect of the sidecar, never a
+    behaviour of the program under proof -> undecided, not a violation."""
     sig = inspect.signature(fn)
     args = []
     for p in sig.parameters.values():
@@ -60,7 +62,14 @@ def call_spec(ctx, fn, ns):
             args.append(p.default)
         else:
             raise KeyError("spec function %s wants unknown name %r" % (fn.__name__, p.name))
-    return ctx.invoke_repo_function(fn, args, {}, spec=True)
+    if not strict:
+        return ctx.invoke_repo_function(fn, args, {}, spec=True)
+    try:
+        return ctx.invoke_repo_function(fn, args, {}, spec=True)
+    except PyRaise as r:
+        if getattr(ctx, "_in_clause", 0):
+            raise
+        raise Unsupported("spec function %s raised %r" % (fn.__name__, r.exc))
 
 
 def as_goal(ctx, v):
@@ -255,6 +264,22 @@ InterpMixin.apply_contract = apply_contract
 # ------------------------------------------------------------------------------------------
 #  loops with invariants
 # ------------------------------------------------------------------------------------------
+def _inv_clauses(spec):
+    return list(spec.inv) if isinstance(spec.inv, (list, tuple)) else [spec.inv]
+
+
+def _prove_inv(ctx, spec, name, ns):
+    cl = _inv_clauses(spec)
+    for i, f in enumerate(cl):
+        nm = name if len(cl) == 1 else "%s#%s" % (name, f.__name__)
+        ctx.prove(nm, ctx.as_goal(ctx.call_spec(f, ns)))
+
+
+def _assume_inv(ctx, spec, ns):
+    for f in _inv_clauses(spec):
+        ctx.assume(ctx.as_goal(ctx.call_spec(f, ns)))
+
+
 def exec_loop_with_invariant(ctx, s, fr, spec, kind, iterable=None):
     base = "%s/loop%d" % (ctx.proof_label_for(fr), ctx.loop_key(s, fr))
 
@@ -284,9 +309,9 @@ def exec_loop_with_invariant(ctx, s, fr, spec, kind, iterable=None):
     if spec.entry is not None:
         ctx.call_spec(spec.entry, ns_now())
     if kind == "while":
-        ctx.prove(base + "/inv-entry", ctx.as_goal(ctx.call_spec(spec.inv, ns_now())))
+        _prove_inv(ctx, spec, base + "/inv-entry", ns_now())
         havoc()
-        ctx.assume(ctx.as_goal(ctx.call_spec(spec.inv, ns_now())))
+        _assume_inv(ctx, spec, ns_now())
         if ctx.truth(ctx.eval(s.test, fr)):
             if spec.hint is not None:
                 ctx.call_spec(spec.hint, ns_now())
@@ -299,7 +324,7 @@ def exec_loop_with_invariant(ctx, s, fr, spec, kind, iterable=None):
                 pass
             if spec.tail is not None:
                 ctx.call_spec(spec.tail, ns_now())
-            ctx.prove(base + "/inv-keep", ctx.as_goal(ctx.call_spec(spec.inv, ns_now())))
+            _prove_inv(ctx, spec, base + "/inv-keep", ns_now())
             if spec.variant is not None:
                 v1 = ctx.call_spec(spec.variant, ns_now())
                 ctx.prove(base + "/variant", z3.And(int_term(v0) >= 0,
@@ -348,10 +373,10 @@ def exec_loop_with_invariant(ctx, s, fr, spec, kind, iterable=None):
     if isinstance(iterable, SymDict):
         iterable = SymDictKeys(iterable)
     if isinstance(iterable, SymDictKeys):
-        ctx.prove(base + "/inv-entry", ctx.as_goal(ctx.call_spec(spec.inv, ns_now())))
+        _prove_inv(ctx, spec, base + "/inv-entry", ns_now())
         k = ctx.choose(2, "loop")
         havoc()
-        ctx.assume(ctx.as_goal(ctx.call_spec(spec.inv, ns_now())))
+        _assume_inv(ctx, spec, ns_now())
         if k == 0:
             ctx.assign(s.target, ctx.fresh_str("key"), fr)
             try:
@@ -360,7 +385,7 @@ def exec_loop_with_invariant(ctx, s, fr, spec, kind, iterable=None):
                 return
             except E._Continue:
                 pass
-            ctx.prove(base + "/inv-keep", ctx.as_goal(ctx.call_spec(spec.inv, ns_now())))
+            _prove_inv(ctx, spec, base + "/inv-keep", ns_now())
             raise PathEnd()
         ctx.exec_block(s.orelse, fr)
         return
@@ -379,7 +404,7 @@ def exec_loop_with_invariant(ctx, s, fr, spec, kind, iterable=None):
     elem = seq.elem
     dn = spec.done_name
     empty = SSeq(z3.Empty(RSEQ), elem, ("empty",))
-    ctx.prove(base + "/inv-entry", ctx.as_goal(ctx.call_spec(spec.inv, ns_now({dn: empty}))))
+    _prove_inv(ctx, spec, base + "/inv-entry", ns_now({dn: empty}))
     k = ctx.choose(2, "loop")
     havoc()
     if k == 0:
@@ -388,7 +413,7 @@ def exec_loop_with_invariant(ctx, s, fr, spec, kind, iterable=None):
         r = z3.Const(ctx.fresh_name("rest"), RSEQ)
         ctx.assume_raw(seq.term == z3.Concat(d, z3.Unit(x), r))
         done = SSeq(d, elem, ("var",))
-        ctx.assume(ctx.as_goal(ctx.call_spec(spec.inv, ns_now({dn: done}))))
+        _assume_inv(ctx, spec, ns_now({dn: done}))
         xo = elem.materialize(ctx, x)
         # let folds over the iterated sequence unfold along done ++ [x] ++ rest
         rest = SSeq(r, elem, ("var",))
@@ -416,9 +441,9 @@ def exec_loop_with_invariant(ctx, s, fr, spec, kind, iterable=None):
         except E._Continue:
             pass
         done2 = SSeq(z3.Concat(d, z3.Unit(x)), elem, ("snoc", done, xo))
-        ctx.prove(base + "/inv-keep", ctx.as_goal(ctx.call_spec(spec.inv, ns_now({dn: done2}))))
+        _prove_inv(ctx, spec, base + "/inv-keep", ns_now({dn: done2}))
         raise PathEnd()
-    ctx.assume(ctx.as_goal(ctx.call_spec(spec.inv, ns_now({dn: seq}))))
+    _assume_inv(ctx, spec, ns_now({dn: seq}))
     ctx.exec_block(s.orelse, fr)
 
 
@@ -516,7 +541,7 @@ def run_contract(eng, c, clause_filter=None):
         outcome = None
         try:
             if c.call is not None:
-                result = ctx.call_spec(c.call, ns)
+                result = ctx.call_spec(c.call, ns, strict=False)
             elif isinstance(target, type):
                 result = ctx.instantiate(target, call_args, {})
             elif c.kwargs_call:
@@ -538,7 +563,7 @@ def run_contract(eng, c, clause_filter=None):
                 if clause_filter and nm not in clause_filter:
                     continue
                 try:
-                    g = ctx.as_goal(ctx.call_spec(f, ns2))
+                    g = ctx.as_goal(ctx.call_spec(f, ns2, strict=False))
                 except PyRaise as r:
                     ctx.note_oblig("%s/post#%s" % (label, nm), "unknown",
                                    {"note": "clause not evaluable on this result: %r" % (r.exc,)})
@@ -546,7 +571,7 @@ def run_contract(eng, c, clause_filter=None):
                 ctx.prove("%s/post#%s" % (label, nm), g, info={"kind": "post"}, assume_after=False)
             for nm, f in c.controls.items():
                 try:
-                    g = ctx.as_goal(ctx.call_spec(f, ns2))
+                    g = ctx.as_goal(ctx.call_spec(f, ns2, strict=False))
                 except PyRaise as r:
                     continue
                 ob = ctx.prove("%s/control#%s" % (label, nm), g,
